@@ -42,7 +42,7 @@ MANIFEST = dict(
          "with the real engine stepped through its own `_thread_func` on boundary-aimed scripts, and of the handshake model with a real GeckoSpa against the "
          "real GeckoSimulator (both engines stepped, shipped snapshot) under seeded loss. Search: monitors on the stepped real engine (send order, gaps, "
          "dispatch target, handler list, retransmission counts, engine liveness, handshake outcome)."
-         ' Since session 3: per-attempt-timeout monitor (consecutive retransmissions of one request at least T apart) and a backlog corpus script; the simulator is built by its real constructor. Session 4: over the regenerated skeletons of all seven socket methods that touch the handler lists or the counters, every mutation happens under self._lock (shared_state_mutated_under_the_lock), hence by the lock holder for any number of threads and any pre-emptive interleaving that respects the lock (shared_state_mutually_exclusive, via lock_mutex). A real-thread search stops the clean-up step before each of its source lines while a second thread registers a request (registration must survive). every_answer_restarts_the_clock (every normal end of handled / async_handled calls _reset_timeout). foreign_code_never_stops_the_engine (+ send_step_contains_handler_exceptions): the four steps of the engine contain whatever a handler\'s code (its send_bytes property, can_handle / handle / handled, loop), the OS socket or the sub-class hook raises (Thrown / exception_is_contained over the regenerated skeletons; reads of send_bytes are skeleton events).',
+         ' Since session 3: per-attempt-timeout monitor (consecutive retransmissions of one request at least T apart) and a backlog corpus script; the simulator is built by its real constructor. Session 4: over the regenerated skeletons of all seven socket methods that touch the handler lists or the counters, every mutation happens under self._lock (shared_state_mutated_under_the_lock), hence by the lock holder for any number of threads and any pre-emptive interleaving that respects the lock (shared_state_mutually_exclusive, via lock_mutex). A real-thread search stops the clean-up step before each of its source lines while a second thread registers a request (registration must survive). every_answer_restarts_the_clock (every normal end of handled / async_handled calls _reset_timeout). foreign_code_never_stops_the_engine (+ send_step_contains_handler_exceptions): the four steps of the engine contain whatever a handler\'s code (its send_bytes property, can_handle / handle / handled, loop), the OS socket or the sub-class hook raises (Thrown / exception_is_contained over the regenerated skeletons; reads of send_bytes are skeleton events). Round 15: the blocking hand-shake with BOTH threads stepped (one _ping_thread_func iteration per ping period) under idle and active timings with one datagram lost; first match with three handlers overlapping only partly on one verb, all registration orders and datagram sequences up to four.',
     note="PARTIAL: real threads are outside the step model - client threads calling queue_send/add_receive_handler are serialised between iterations (the code "
          "uses self._lock for the lists; the new last_destination assignment in queue_send is outside the lock), and `_thread_func` iterates "
          "self._receive_handlers WITHOUT the lock while client threads may append (a data race the step model cannot exhibit; named, not claimed). "
@@ -1292,6 +1292,8 @@ def run(ctx):
                     ctx.obligation_broken("correspondence:engine-model-vs-implementation", {"op": lines[i][:300], "index": i, "model": mo[:400], "impl": im[:400]})
         ctx.cov["correspondence_ops"] = len(lines)
         ctx.cov["correspondence_disagreements"] = nd
+    check_handshake_with_ping_thread(ctx)
+    search_partial_overlap(ctx)
     ctx.cov["distinct_nontrivial"] = len([f for f in featsets if len(f) >= 2])
     ctx.cov["rule"] = ("generic scripts: 2-5 scripted handlers (random accept masks over 5 verbs so acceptors overlap, packet acceptors that re-dispatch, timeouts "
                        "0/15/20.001/50/100/250 ms, retries 0-3, on_retry_failed default/none/raising, reactions = act lists incl. raise), registration in random "
@@ -1307,9 +1309,93 @@ def run(ctx):
                         "handshake: datagrams are genuine (real simulator bytes), only loss and the seeded small delivery delay vary"]
 
 
+def search_partial_overlap(ctx, only=None):
+    """first match when acceptance depends on MORE than the leading verb: three handlers whose accepted sets overlap only partly on
+    datagrams that all begin with the same five bytes (by length, by a later byte, a catch-all), every registration order, every
+    sequence of up to four datagrams - each datagram goes to the first registered handler that accepts THAT datagram, whatever the
+    handlers took before (real GeckoUdpSocket.dispatch_recevied_data, no thread)"""
+    import itertools
+    from geckolib.driver import GeckoUdpSocket, GeckoUdpProtocolHandler
+
+    class MockSock:
+        def sendto(self, data, dest):
+            pass
+    preds = {"long": lambda b: len(b) >= 12, "even": lambda b: len(b) > 5 and b[5] % 2 == 0, "all": lambda b: True}
+    dgs = [b"<PACKT>\x02tail-of-a-long-one", b"<PACKT>\x03tail-of-a-long-one", b"<PACKT>\x02", b"<PACKT>\x03", b"<PACK"]
+
+    class H(GeckoUdpProtocolHandler):
+        def __init__(self, name, log):
+            super().__init__()
+            self.name, self.log = name, log
+
+        def can_handle(self, received_bytes, sender):
+            return preds[self.name](received_bytes)
+
+        def handle(self, received_bytes, sender):
+            self.log.append(self.name)
+    for order in itertools.permutations(sorted(preds)):
+        for n in (1, 2, 3, 4):
+            for seq in itertools.product(range(len(dgs)), repeat=n):
+                case = [list(order), list(seq)]
+                if only is not None and only != case:
+                    continue
+                sock = GeckoUdpSocket(socket=MockSock())
+                log = []
+                for name in order:
+                    sock.add_receive_handler(H(name, log))
+                want = []
+                try:
+                    for i in seq:
+                        want.append(next((nm for nm in order if preds[nm](dgs[i])), None))
+                        k = len(log)
+                        sock.dispatch_recevied_data(dgs[i], ("10.0.0.1", 10022))
+                        if len(log) == k:
+                            log.append(None)
+                except Exception as e:  # noqa
+                    log.append(f"raised {type(e).__name__}: {e}")
+                ctx.count("evaluations")
+                if log != want:
+                    ctx.hist("partial_overlap", "differs")
+                    ctx.violation("first-match:partly-overlapping-acceptors", {"kind": "partial-overlap", "case": case},
+                                  {"registered in this order": list(order), "datagrams": [dgs[i].decode("latin1") for i in seq], "taken by": want}, {"taken by": log})
+                    return
+    ctx.hist("partial_overlap", "all-sequences-first-match")
+
+
+def check_handshake_with_ping_thread(ctx, only=None):
+    """the blocking handshake with BOTH threads of the client stepped (the ping thread pings and calls refresh() once per ping period),
+    under the library's idle and active timings (an async manager in the same process switches the shared timings), one datagram lost"""
+    import bsessions
+    from common import REPO
+    snaps = [s for s in usable_snapshots()][:2 if ctx.tier == "quick" else 6]
+    for f in snaps:
+        for active in (False, True):
+            for lose in ("none", "version", "first-segment", "last-segment"):
+                case = [str(f).split("/")[-1], active, lose]
+                if only is not None and only != case:
+                    continue
+                path = str(f) if "/" in str(f) else str(REPO / "tests" / "snapshots" / f)
+                try:
+                    r = bsessions.handshake_with_ping_thread(path, active, lose)
+                except Exception as e:  # noqa
+                    r = {"raised": f"{type(e).__name__}: {e}"}
+                ctx.count("evaluations")
+                ctx.hist("handshake_with_ping_thread", f"{'active' if active else 'idle'}:{lose}")
+                if not r.get("connected") or r.get("differs_at") or r.get("block_len") != 1024:
+                    ctx.violation(f"handshake-with-ping-thread:{lose}", {"kind": "handshake-with-ping-thread", "case": case},
+                                  "one attempt per step gets through: the client connects with a status block identical to the spa's", r)
+                    return
+
+
 def replay(inp):
     from common import Ctx
     ctx = Ctx("C20", "quick", 0)
+    if inp.get("kind") == "partial-overlap":
+        search_partial_overlap(ctx, only=inp["case"])
+        return bool(ctx.violations), ctx.violations[0]["observed"] if ctx.violations else "first match"
+    if inp.get("kind") == "handshake-with-ping-thread":
+        check_handshake_with_ping_thread(ctx, only=inp["case"])
+        return bool(ctx.violations), ctx.violations[0]["observed"] if ctx.violations else "connected, identical block"
     if inp.get("kind") == "cleanup-race":
         search_cleanup_race(ctx, only=inp["pause_index"])
         return bool(ctx.violations), ctx.violations[0]["observed"] if ctx.violations else "registered"
